@@ -105,7 +105,12 @@ func (o ObjectPairArray) DebugString() string {
 
 // ---------------------------------------------------------------------------------------------------------------------
 
-type amf0 struct{}
+type amf0 struct {
+	depth int // 当前所在容器类型(Object, EcmaArray, StrictArray)的嵌套层数
+}
+
+// amf0MaxNestDepth 容器类型嵌套层数的上限。读取函数互相递归调用，如果不限制，对端可以用一个很小的包耗尽栈空间
+const amf0MaxNestDepth = 64
 
 var Amf0 amf0
 
@@ -283,7 +288,7 @@ func (amf0) ReadUndefinedOrUnsupported(b []byte) (int, error) {
 // @return ObjectPairArray: ...
 // @return int: 读取时从 b 消耗的字节大小
 // @return error: ...
-func (amf0) ReadObject(b []byte) (ObjectPairArray, int, error) {
+func (a amf0) ReadObject(b []byte) (ObjectPairArray, int, error) {
 	if len(b) < 1 {
 		return nil, 0, nazaerrors.Wrap(base.ErrAmfTooShort)
 	}
@@ -305,7 +310,7 @@ func (amf0) ReadObject(b []byte) (ObjectPairArray, int, error) {
 		index += l
 
 		var readErr error
-		ops, index, readErr = Amf0.read(b, index, k, ops)
+		ops, index, readErr = a.read(b, index, k, ops)
 		if readErr != nil {
 			return ops, index, readErr
 		}
@@ -315,7 +320,7 @@ func (amf0) ReadObject(b []byte) (ObjectPairArray, int, error) {
 // TODO chef: 实现WriteArray
 
 // ReadArray Amf0TypeMarkerEcmaArray
-func (amf0) ReadArray(b []byte) (ObjectPairArray, int, error) {
+func (a amf0) ReadArray(b []byte) (ObjectPairArray, int, error) {
 	if len(b) < 5 {
 		return nil, 0, nazaerrors.Wrap(base.ErrAmfTooShort)
 	}
@@ -334,7 +339,7 @@ func (amf0) ReadArray(b []byte) (ObjectPairArray, int, error) {
 		index += l
 
 		var readErr error
-		ops, index, readErr = Amf0.read(b, index, k, ops)
+		ops, index, readErr = a.read(b, index, k, ops)
 		if readErr != nil {
 			return ops, index, readErr
 		}
@@ -348,7 +353,7 @@ func (amf0) ReadArray(b []byte) (ObjectPairArray, int, error) {
 	return ops, index, nil
 }
 
-func (amf0) ReadStrictArray(b []byte) (ObjectPairArray, int, error) {
+func (a amf0) ReadStrictArray(b []byte) (ObjectPairArray, int, error) {
 	if len(b) < 5 {
 		return nil, 0, nazaerrors.Wrap(base.ErrAmfTooShort)
 	}
@@ -361,7 +366,7 @@ func (amf0) ReadStrictArray(b []byte) (ObjectPairArray, int, error) {
 	var ops ObjectPairArray
 	for i := 0; i < count; i++ {
 		var readErr error
-		ops, index, readErr = Amf0.read(b, index, "", ops)
+		ops, index, readErr = a.read(b, index, "", ops)
 		if readErr != nil {
 			return ops, index, readErr
 		}
@@ -383,7 +388,10 @@ func (amf0) ReadObjectOrArray(b []byte) (ObjectPairArray, int, error) {
 	return nil, 0, base.NewErrAmfInvalidType(b[0])
 }
 
-func (amf0) read(b []byte, index int, k string, ops ObjectPairArray) (ObjectPairArray, int, error) {
+func (a amf0) read(b []byte, index int, k string, ops ObjectPairArray) (ObjectPairArray, int, error) {
+	if a.depth >= amf0MaxNestDepth {
+		return nil, 0, nazaerrors.Wrap(base.ErrAmfNestTooDeep)
+	}
 	if len(b)-index < 1 {
 		return nil, 0, nazaerrors.Wrap(base.ErrAmfTooShort)
 	}
@@ -417,21 +425,21 @@ func (amf0) read(b []byte, index int, k string, ops ObjectPairArray) (ObjectPair
 		}
 		index += l
 	case Amf0TypeMarkerObject:
-		v, l, err := Amf0.ReadObject(b[index:])
+		v, l, err := amf0{a.depth + 1}.ReadObject(b[index:])
 		if err != nil {
 			return nil, 0, err
 		}
 		ops = append(ops, ObjectPair{k, v})
 		index += l
 	case Amf0TypeMarkerEcmaArray:
-		v, l, err := Amf0.ReadArray(b[index:])
+		v, l, err := amf0{a.depth + 1}.ReadArray(b[index:])
 		if err != nil {
 			return nil, 0, err
 		}
 		ops = append(ops, ObjectPair{k, v})
 		index += l
 	case Amf0TypeMarkerStrictArray:
-		v, l, err := Amf0.ReadStrictArray(b[index:])
+		v, l, err := amf0{a.depth + 1}.ReadStrictArray(b[index:])
 		if err != nil {
 			return nil, 0, err
 		}
